@@ -21,6 +21,13 @@ def plan(pid):
 MIRI_T = (900, 2400)
 
 
+def _lazy(mod):
+    def fn(leg, seed, tier, replay=None):
+        import importlib
+        return importlib.import_module(mod).run(leg, seed, tier, replay=replay)
+    return fn
+
+
 META["C12"] = dict(
     text="Random query histories on one LineIndex per text, every answer compared with a naive LF/CR/CRLF scan and with a fresh index; history classes (repeat / walk <=16 / over cap / backward) counted and required; Miri leg in the thorough tier. Held-on-observed, not a proof.",
     note="Trusts the naive line model (cross-checked linear vs binary-search form) and the harness PRNG; texts up to 400k bytes.",
@@ -161,6 +168,7 @@ def c10():
     return Check("C10", [
         Leg("lib-default", "c10", shards=(2, 8)),
         Leg("miri-base", "c10", shards=(1, 1), tiers=("thorough",), timeout=MIRI_T),
+        Leg("cli", "cli_c10", fn=_lazy("cli_c10"), label="cli:c10"),
     ])
 
 
